@@ -52,7 +52,7 @@ class C19(vlib.Check):
             'observations (target previous-or-empty, others unchanged, all valid, nothing shared, no leak). '
             'non-trivial = a case whose faulted operation actually threw')
     modelled_not_verified = ('operator new/new[] replaced by counting / failing wrappers over malloc (the k-th allocation inside the '
-                             'designated operation throws std::bad_alloc)', 'std::vector growth (split/tokenize) is not faulted',
+                             'designated operation throws std::bad_alloc)', 'std::vector (split/tokenize) is an oracle: its blocks are faulted like any other allocation, the model stands for them by dummy temporaries',
                              'allocations made by the harness itself while building arguments are kept outside the fault window '
                              'or avoided by construction')
 
@@ -96,6 +96,21 @@ class C19(vlib.Check):
                         p.ops.append('set,%d,%s' % (o, hx(rstr(rng, rng.choice([2, 20])))))
                     p.ops += ['reads,0', 'del,0', 'del,1']
                     yield 'str 4 %s failat=%d@%d' % (';'.join(p.ops), k, step)
+        # --- split: the pieces and the vector's storage are allocated in turn (std::vector is an oracle: its blocks are
+        #     stood for by dummies); with at least two pieces there are at least two allocations, each of them faulted
+        for size in (5, 17, 40, 90):
+            for k in (0, 1):
+                for rep in range(2):
+                    v = bytearray(rstr(rng, size))
+                    for pos in sorted(rng.sample(range(1, size - 1), rng.choice([1, 2, 3]))):
+                        v[pos] = 0x7c
+                    v = bytes(v)
+                    first = v.split(b'|')[0]
+                    big = '00' * 40
+                    ops = ['new,0,' + hx(v), 'new,1,' + hx(rstr(rng, 20)),
+                           'split0,2,0,124,M=via:%s/%s:%s' % (big, big, hx(first)),
+                           'set,0,' + hx(rstr(rng, 20)), 'set,1,' + hx(rstr(rng, 2)), 'reads,0', 'del,0', 'del,1']
+                    yield 'str 4 %s failat=%d@2' % (';'.join(ops), k)
         # --- streams
         stk = consts()['stack_string_size']
         for first in (0, 1, stk - 1, stk, 2 * stk, 2 * stk + 1, 5 * stk):
